@@ -244,13 +244,20 @@ def flip (m : Maps) : List (Name × Name) :=
 
 def rn (remap : List (Name × Name)) (n : Name) : Name := (AL.get? remap n).getD n
 
-/-- down conversion in `UFOWriter.writeGroups`: first every group that is not renamed, then the
-renamed ones (overwriting) -/
+/-- first loop of the down conversion in `UFOWriter.writeGroups`: a group that is not renamed is
+copied -/
+def downKeep (remap : List (Name × Name)) (r : Groups) (p : Name × List Name) : Groups :=
+  if AL.contains remap p.1 then r else AL.set r p.1 p.2
+
+/-- second loop: a renamed group is stored under the name to write (overwriting) -/
+def downMove (remap : List (Name × Name)) (r : Groups) (p : Name × List Name) : Groups :=
+  match AL.get? remap p.1 with
+  | none => r
+  | some w => AL.set r w p.2
+
+/-- down conversion in `UFOWriter.writeGroups` -/
 def downGroups (remap : List (Name × Name)) (g : Groups) : Groups :=
-  let g1 := g.foldl (fun r p => if AL.contains remap p.1 then r else AL.set r p.1 p.2) []
-  g.foldl (fun r p => match AL.get? remap p.1 with
-    | none => r
-    | some w => AL.set r w p.2) g1
+  g.foldl (downMove remap) (g.foldl (downKeep remap) [])
 
 /-- down conversion in `UFOWriter.writeKerning`: both sides through the one flat map -/
 def downKerning (remap : List (Name × Name)) (k : Kerning) : Kerning :=
